@@ -134,3 +134,21 @@ func VerifSetRequestCounter(client interface{}, n int64) bool {
 	}
 	return false
 }
+
+// VerifSetServerRequestCounter puts the counter a server takes the ids of its own
+// requests (roots/list, SendRequest without an id) from at n, as if the server had
+// already issued n requests.
+func VerifSetServerRequestCounter(server interface{}, n int64) bool {
+	switch s := server.(type) {
+	case *Server:
+		s.httpHandler.responseManager.requestIDGen.Store(n)
+		return true
+	case *SSEServer:
+		s.requestID.Store(n)
+		return true
+	case *StdioServer:
+		s.requestID.Store(n)
+		return true
+	}
+	return false
+}
